@@ -77,6 +77,20 @@ fn main() {
         replay,
         opts,
     };
+    // watchdog: a run that hangs is a machinery failure (exit 2), never a verdict and never a hang
+    let cap_s: f64 = std::env::var("VERIF_WALL_CAP_S").ok().and_then(|s| s.parse().ok()).unwrap_or(match tier {
+        Tier::Quick => 900.0,
+        Tier::Thorough => 6.0 * 3600.0,
+    });
+    let t0 = ctx.t0;
+    let pname = prop.clone();
+    std::thread::spawn(move || loop {
+        std::thread::sleep(std::time::Duration::from_secs(2));
+        if common::vclock::raw_now_s() - t0 > cap_s {
+            println!("MACHINERY-FAILURE: {pname} exceeded its wall-clock cap of {cap_s} s (hang or runaway search)");
+            std::process::exit(2);
+        }
+    });
     let code = match prop.as_str() {
         "C05" | "C06" | "C14" => gridmc::clientgrid::run(&ctx),
         "C07" => gridmc::boundgrid::run(&ctx),
